@@ -146,7 +146,8 @@ pub fn check(tier: &str) -> i32 {
         v
     };
     // clock scripts: ms added before every op
-    let scripts: [(&str, i64); 3] = [("same-ms", 0), ("forward", 1000), ("backward", -7)];
+    // 1024 / 3072: ids of consecutive events then agree in every bit below the 32nd
+    let scripts: [(&str, i64); 5] = [("same-ms", 0), ("forward", 1000), ("backward", -7), ("forward-1024", 1024), ("forward-3072", 3072)];
     let work: Vec<(Vec<Tok>, (&str, i64))> = hs.iter().flat_map(|h| scripts.iter().map(move |s| (h.clone(), *s))).collect();
     let e2e: Vec<Result<(usize, Vec<String>, Vec<String>), String>> = par_map(&work, threads(), |i, (h, (sname, step))| {
         let p = plan(h, &cfg, SnapMode::Off, true);
@@ -194,6 +195,20 @@ pub fn check(tier: &str) -> i32 {
                                 }
                             }
                             _ => {}
+                        }
+                    }
+                }
+                // no distinct event is dropped (e.g. taken for a duplicate of another one)
+                if let Some((_, acked)) = p.observes[li].iter().find(|(o, _)| o == opi) {
+                    for e in acked {
+                        if !ids_now.contains_key(&e.k) {
+                            // listed: with a clock that does not advance, the unseeded generator of the new
+                            // lifetime re-issues ids of the previous one; the selection then merges the two events
+                            if *step <= 0 && li > 0 && kf.is_known("C18", "KF-restart-not-seeded") {
+                                out_known.push(format!("{sname} {h:?}: k={} merged with an event of another lifetime that carries the same id", e.k));
+                                continue;
+                            }
+                            out_viol.push(format!("{sname} {h:?}: applied event k={} is missing from the selection (life {li} op {opi}): dropped or merged with another event", e.k));
                         }
                     }
                 }
